@@ -1401,3 +1401,38 @@ mut("recovery_output_never_unregistered", ["C11"], "ORD-13", patch="recovery_out
 mut("manifest_number_allocated_only_without_reuse", ["C11", "C02"], "ROLE-4", patch="manifest_number_allocated_only_without_reuse.diff")
 mut("revert_D12b", ["C15", "C08"], "ERR-4", patch="revert_D12b_status_lost_at_list_ends.diff", note="the skip helpers drop the table iterator at either end of the file list without keeping its status")
 mut("revert_D19", ["C07", "C01"], "PAIR-9", patch="revert_D19_parent_set_not_expanded.diff", note="the grown parent-level inputs are not boundary-expanded")
+benign_patch("refactor_s10_01", "benign/set10_refactor01.diff", note='MergingIterator::seek_to_first: record_seek_error helper')
+benign_patch("refactor_s10_02", "benign/set10_refactor02.diff", note='MergingIterator::next: direction switch with Option == and .err()')
+benign_patch("refactor_s10_03", "benign/set10_refactor03.diff", note='MergingIterator::get_error: iter_mut().find + take')
+benign_patch("refactor_s10_04", "benign/set10_refactor04.diff", note='FilesEntryIterator::set_table_iter: single match with guard')
+benign_patch("refactor_s10_05", "benign/set10_refactor05.diff", note='FilesEntryIterator::next: record_forward_skip_error helper')
+benign_patch("refactor_s10_06", "benign/set10_refactor06.diff", note='TwoLevelIterator::next: named local + match')
+benign_patch("refactor_s10_07", "benign/set10_refactor07.diff", note='force_level_compaction: withdraw_manual_compaction helper')
+benign_patch("refactor_s10_08", "benign/set10_refactor08.diff", note='compact_tables: add_entry_to_compaction_output helper')
+benign_patch("refactor_s10_09", "benign/set10_refactor09.diff", note='flush_data_block: explicit match + local')
+benign_patch("refactor_s10_10", "benign/set10_refactor10.diff", note='LogWriter::append: cmp::min + match on (first,last)')
+benign_patch("refactor_s10_11", "benign/set10_refactor11.diff", note='read_record: kind() == UnexpectedEof if instead of match')
+benign_patch("refactor_s10_12", "benign/set10_refactor12.diff", note='VersionSet::recover tail: match + named bool')
+benign_patch("refactor_s10_13", "benign/set10_refactor13.diff", note='recover_wal_records tail: reuse_wal_file helper')
+benign_patch("refactor_s10_14", "benign/set10_refactor14.diff", note='apply_changes: complete_group_commit helper')
+benign_patch("refactor_s10_15", "benign/set10_refactor15.diff", note='find_shortest_separator: zip/take_while/count')
+benign_patch("refactor_s10_16", "benign/set10_refactor16.diff", note='Table::get: filter_may_match helper')
+mut('base_level_cursor_overshoots', ['C07', 'C03'], 'GRD-30', patch='base_level_cursor_overshoots.diff')
+mut('base_level_cursor_single_step', ['C06', 'C07'], 'GRD-30', patch='base_level_cursor_single_step.diff')
+mut('parent_boundary_before_fill', ['C07', 'C01'], 'PAIR-9', patch='parent_boundary_before_fill.diff')
+mut('version_builder_skips_last_level', ['C06', 'C10', 'C11'], 'LVL-1', patch='version_builder_skips_last_level.diff')
+mut('open_failure_reported_as_miss', ['C13', 'C01'], 'VERD-2', patch='open_failure_reported_as_miss.diff')
+mut('mem_read_from_seek_then_read', ['C13', 'C05'], 'ATOM-1', patch='mem_read_from_seek_then_read.diff')
+mut('flush_time_measured_from_compaction_start', ['C09', 'C10'], 'GRD-32', patch='flush_time_measured_from_compaction_start.diff')
+mut('sampling_counter_assigned', ['C09'], 'PROG-1', patch='sampling_counter_assigned.diff')
+mut('level0_miss_breaks_candidate_loop', ['C01', 'C05'], 'VERD-1', patch='level0_miss_breaks_candidate_loop.diff')
+mut('wal_listing_failure_defaulted', ['C01', 'C08', 'C02'], 'ERR-1', patch='wal_listing_failure_defaulted.diff')
+mut('new_snapshot_decided_by_option', ['C16', 'C02', 'C11'], 'GRD-31', patch='new_snapshot_decided_by_option.diff')
+mut('current_written_in_place', ['C16', 'C02'], 'ORD-4', patch='current_written_in_place.diff')
+mut('open_schedules_without_flag', ['C17', 'C09'], 'PAIR-4', patch='open_schedules_without_flag.diff')
+mut('rotation_schedules_without_flag', ['C17', 'C09'], 'PAIR-4', patch='rotation_schedules_without_flag.diff')
+mut('empty_record_skips_checksum', ['C15', 'C12'], 'ORD-14', patch='empty_record_skips_checksum.diff')
+mut('bloom_lower_clamp_dropped', ['C14'], 'AGR-1', patch='bloom_lower_clamp_dropped.diff')
+mut('filter_reader_ignores_stored_exponent', ['C14'], 'GRD-8', patch='filter_reader_ignores_stored_exponent.diff')
+mut("seek_level_overwritten_by_later_file", ["C10", "C07"], "PAIR-12", patch="seek_level_overwritten_by_later_file.diff")
+mut("previous_output_unregistered_early", ["C10", "C11", "C03"], "ORD-13", patch="previous_output_unregistered_early.diff")
